@@ -6,6 +6,7 @@
 #include "imgworld.h"
 #include "Sprite/SpriteLoader.h"
 #include "Stream/DynamicMemoryWriter.h"
+#include "Stream/MemoryReader.h"
 #include <set>
 #include <stdexcept>
 #include <unordered_set>
@@ -18,7 +19,7 @@ namespace {
 struct ImageDamage : Family {
 	std::string name() const override { return "image-damage"; }
 
-	Plan generate(const std::string&, Rng& r, bool thorough) override {
+	Plan generate(const std::string& prop, Rng& r, bool thorough) override {
 		Plan p;
 		p.setenv("heap", r.below(256));
 		p.setenv("stack", r.below(256));
@@ -30,6 +31,9 @@ struct ImageDamage : Family {
 		uint64_t k = r.below(10);
 		Line t = mkline("world", "target");
 		std::string kind = k < 4 ? "bmp" : k < 5 ? "tsbmp" : k < 7 ? "pbmp" : "prt";
+		// under C08 / C10 the family asks another question of the same damaged inputs: whatever the reader ACCEPTS must obey the laws
+		// those properties state for accepted byte strings
+		if (prop == "C08") kind = "bmp"; else if (prop == "C10") kind = "prt";
 		t.set("kind", kind);
 		p.world.push_back(t);
 		// one picture world in eight is LARGE: its pixel section lies on or next to a multiple of 128 KiB .. 1 MiB, and it is swept at
@@ -104,6 +108,10 @@ struct ImageDamage : Family {
 			// pixelOffset and fileSize moved together (pixel size unchanged)
 			for (const char* d : {"+1", "+4", "-1", "+0x1000", "-54"}) { Line l = multi(); l.set("f1", "pixelOffset").set("v1", d).set("f2", "fileSize").set("v2", d); templates.push_back(l); }
 			for (uint64_t cu : {1ull, 2ull, 15ull, 16ull, 17ull, 255ull, 256ull, 257ull}) { Line l = multi(); l.set("f1", "clrUsed").set("v1", hex64(cu)); templates.push_back(l); }
+			// the two header fields that bound the pixel section made to coincide (an "empty" pixel section for a non-empty picture)
+			{ Line l = multi(); l.set("f1", "fileSize").set("v1", hex64(po)).set("trunc", po); templates.push_back(l); }
+			{ Line l = multi(); l.set("f1", "fileSize").set("v1", hex64(po)); templates.push_back(l); }
+			{ Line l = multi(); l.set("f1", "pixelOffset").set("v1", hex64(54 + 4 * b.palette.size() + b.pixels.size())); templates.push_back(l); }
 		} else if (kind == "tsbmp" || kind == "pbmp") {
 			ref::RTileset t;
 			bool bu = false;
@@ -212,6 +220,49 @@ struct ImageDamage : Family {
 			uint64_t vh = mix64(hashstr(dmg.verb), o);
 			if (!changed && o != OkOut) throw std::runtime_error("valid reference-encoded " + kind + " was refused: " + what);
 			if (o == OkOut && dmg.verb == "truncate" && dmg.u("k") < valid.size()) ctx.fail("C11.prefix-refused", "a " + std::to_string(dmg.u("k")) + "-byte proper prefix of a valid " + std::to_string(valid.size()) + "-byte " + kind + " file was loaded");
+			if (o == OkOut && plan.property == "C08" && kind == "bmp") {
+				// C08 over damaged inputs: every byte string the reader accepts yields a bitmap that validates, has the stated geometry
+				// and survives write -> read
+				std::string lw;
+				Out lo = callLib(plan, [&] { bf.Validate(); }, &lw);
+				if (lo != OkOut) ctx.fail("C08.valid", "the reader accepted a damaged file but the bitmap it returned fails the library's own validation: " + lw);
+				int64_t w = bf.imageHeader.width, hgt = bf.imageHeader.height; unsigned bits = bf.imageHeader.bitCount;
+				uint64_t rows = static_cast<uint64_t>(hgt < 0 ? -hgt : hgt);
+				unsigned __int128 pitch = w < 0 ? 0 : ((static_cast<unsigned __int128>(w) * bits + 31) / 32) * 4;
+				if (w < 0 || (bits != 1 && bits != 4 && bits != 8) || pitch * rows != bf.pixels.size()) ctx.fail("C08.geometry", "accepted bitmap: width " + std::to_string(w) + ", height " + std::to_string(hgt) + ", depth " + std::to_string(bits) + " but " + std::to_string(bf.pixels.size()) + " pixel bytes (|height| rows of the smallest multiple-of-four length holding width x depth bits expected)");
+				if (bf.palette.size() > (1u << bits)) ctx.fail("C08.geometry", "accepted bitmap has " + std::to_string(bf.palette.size()) + " palette entries at depth " + std::to_string(bits));
+				if (bf.pixels.size() <= (1u << 20)) {
+					BitmapFile back;
+					lo = callLib(plan, [&] { Stream::DynamicMemoryWriter wr; bf.WriteIndexed(wr); auto rd = wr.GetReader(); back = BitmapFile::ReadIndexed(rd); }, &lw);
+					if (lo != OkOut) ctx.fail("C08.roundtrip", "an accepted bitmap could not be written and read back: " + lw);
+					bool same = back.imageHeader.width == bf.imageHeader.width && back.imageHeader.height == bf.imageHeader.height && back.imageHeader.bitCount == bf.imageHeader.bitCount && back.palette.size() >= bf.palette.size() && back.pixels.size() == bf.pixels.size();
+					for (size_t q = 0; same && q < bf.palette.size(); ++q) same = back.palette[q] == bf.palette[q];
+					size_t rowBytes = static_cast<size_t>((static_cast<uint64_t>(w) * bits + 7) / 8), pt = static_cast<size_t>(pitch);
+					for (uint64_t y = 0; same && y < rows; ++y) same = memcmp(back.pixels.data() + y * pt, bf.pixels.data() + y * pt, rowBytes) == 0;
+					if (!same) ctx.fail("C08.roundtrip", "an accepted bitmap changed in the write -> read round trip");
+				}
+				ctx.count("probe.accepted_damaged_input_checked_against_laws");
+			}
+			if (o == OkOut && plan.property == "C10" && kind == "prt") {
+				std::string lw;
+				for (size_t q = 0; q < art->imageMetas.size(); ++q) {
+					const auto& im = art->imageMetas[q];
+					if (im.paletteIndex >= art->palettes.size()) ctx.fail("C10.rules", "accepted damaged PRT: image " + std::to_string(q) + " names palette " + std::to_string(im.paletteIndex) + " of " + std::to_string(art->palettes.size()));
+					if (im.scanLineByteWidth != ((im.width + 3) & ~3u)) ctx.fail("C10.rules", "accepted damaged PRT: image " + std::to_string(q) + " scan-line width is not its width rounded up to four");
+				}
+				for (auto& an : art->animations) for (auto& fr : an.frames) if (fr.layerMetadata.count != fr.layers.size()) ctx.fail("C10.rules", "accepted damaged PRT: a frame's 7-bit layer count disagrees with its layer list");
+				std::vector<uint8_t> w1, w2;
+				std::vector<uint8_t> before = dumpArt(*art);
+				Out lo = callLib(plan, [&] { Stream::DynamicMemoryWriter wr; art->Write(wr); auto rd = wr.GetReader(); w1.resize(static_cast<size_t>(rd.Length())); rd.Read(w1.data(), w1.size()); }, &lw);
+				if (lo != OkOut) ctx.fail("C10.roundtrip-equal", "a structure the reader accepted was refused by the writer: " + lw);
+				if (dumpArt(*art) != before) ctx.fail("C10.write-const", "ArtFile::Write altered the in-memory object");
+				ArtFile back;
+				lo = callLib(plan, [&] { Stream::MemoryReader rd(w1.data(), w1.size()); back = ArtFile::Read(rd); Stream::DynamicMemoryWriter wr; back.Write(wr); auto r2 = wr.GetReader(); w2.resize(static_cast<size_t>(r2.Length())); r2.Read(w2.data(), w2.size()); }, &lw);
+				if (lo != OkOut) ctx.fail("C10.roundtrip-equal", "what the library wrote for an accepted structure was not read back: " + lw);
+				if (dumpArt(back) != before) ctx.fail("C10.roundtrip-equal", "an accepted structure changed in the write -> read round trip");
+				if (w1 != w2) ctx.fail("C10.byte-stable", "second write of an accepted structure differs from the first");
+				ctx.count("probe.accepted_damaged_input_checked_against_laws");
+			}
 			if (o == OkOut) {
 				ctx.count("probe.damaged_input_accepted");
 				for (size_t oi = 0; oi < plan.ops.size(); ++oi) {
